@@ -17,7 +17,7 @@ cp "$demo" "$demopath"
 r_mut=$(go test -vet=off -count=1 -timeout 120s -run "$re" "$pkg" 2>&1 | grep -E "^(ok|FAIL|--- FAIL|panic)" | head -3 | tr '\n' ' ')
 echo "demo with change: $r_mut" >> $log
 rm -f "$demopath"
-u=$(go test -vet=off -count=1 -timeout 15m $(go list ./... | grep -v "/tests$\|/benchmarks\|/demo") 2>&1 | grep -E "^(FAIL|---|panic)" | head -5 | tr '\n' ' ')
+u=$(go test -vet=off -count=1 -timeout 15m $(go list ./... | grep -v "/tests$\|/benchmarks\|/demo\|/out/") 2>&1 | grep -E "^(FAIL|---|panic)" | head -5 | tr '\n' ' ')
 echo "unit tests with change: ${u:-all ok}" >> $log
 for attempt in 1 2 3; do
   w=$(GOMAXPROCS=4 timeout 600 go test -vet=off -count=1 -timeout 9m ./tests/... 2>&1 | grep -E "^(ok|FAIL|--- FAIL|panic)" | head -4 | tr '\n' ' ')
